@@ -4,6 +4,7 @@ import (
 	"fmt"
 	"go/token"
 	"go/types"
+	"regexp"
 	"sort"
 	"strings"
 
@@ -1219,8 +1220,17 @@ func (e *Encoder) anyIs(x string, t types.Type) string {
 	default:
 		tester = "AOpq"
 	}
+	if m := shapedAnyRe.FindStringSubmatch(x); m != nil {
+		// a value of syntactically known dynamic type (see shapeTypeGuard): the test folds
+		if m[1] == tester && m[2] == tag {
+			return "true"
+		}
+		return "false"
+	}
 	return and(app("(_ is "+tester+")", x), eq(app("tagof", x), tag))
 }
+
+var shapedAnyRe = regexp.MustCompile(`^\((ARef|AInt|AF64|AStr|ABool|AOpq) (\d+) `)
 
 func (f *Frame) typeAssert(i *ssa.TypeAssert) {
 	e := f.e
